@@ -345,6 +345,40 @@ def run(F, rep):
     if n_h < 1:
         raise AnalysisBroken('C13.H1: no writer of AnnotatorImpl::mHash found')
 
+    # ------------------------------------------------------------------ M1: what is walked is read from the model now
+    rep.rule('C13.M1', 'every loop of annotator.cpp over entities of the model walks what the model holds NOW (a collection obtained from mModel.lock(), a parameter or a local in the same call): no loop runs over a data member of '
+                       'AnnotatorImpl other than the id index itself (mIdList, whose freshness the hash guards). A list of entities stored when the index was built is not covered by the hash - entities without an id do not enter it - '
+                       'so an import source, component or units that replaced another one since then would be skipped and its detached predecessor given the id')
+    from engines import single_def as _sd13, is_this_like as _itl13
+    n_m1 = 0
+
+    def _members(g_, e, depth=0):
+        out = []
+        for x in walk(e):
+            if x.get('k') == 'Member' and x.get('field') and 'AnnotatorImpl' in (x.get('q') or '') and _itl13((x.get('c') or [None])[0]):
+                out.append(x['n'])
+            elif x.get('k') == 'Ref' and x.get('dk') == 'local' and depth < 4:
+                i_ = _sd13(g_, x.get('d'))
+                if i_ is not None:
+                    out += _members(g_, i_, depth + 1)
+        return out
+    for g in F.funcs.values():
+        if not g.file.endswith('/annotator.cpp'):
+            continue
+        for L in g.walk():
+            if L.get('k') == 'RangeFor':
+                src = role(L, 'range')
+            elif L.get('k') == 'For' and role(L, 'cond') is not None:
+                src = role(L, 'cond')
+            else:
+                continue
+            n_m1 += 1
+            stored = sorted(set(m_ for m_ in _members(g, src) if m_ not in ('mModel', 'mIdList', 'mAnnotator')))
+            rep.check(not stored, 'C13.M1', '%s|loop@%s' % (g.short.split('::')[-1], render(src)[:40]), g.where(L),
+                      '%s walks `%s`, which is (derived from) the data member %s filled by an earlier call, not what the model holds now' % (g.short, render(src)[:50], stored), 'walks the model / a parameter / the id index')
+    if n_m1 < 15:
+        raise AnalysisBroken('C13.M1: only %d loops found in annotator.cpp (15 confirmed)' % n_m1)
+
     # ------------------------------------------------------------------ A: flags gathered over loops
     from engines import rule_accumulators
     rule_accumulators(F, rep, 'C13.A1', lambda g: g.file.endswith('/annotator.cpp'), 2, 'annotator.cpp', 'whether an entry was already recorded must not depend on the last entry compared')
